@@ -99,6 +99,10 @@ def gen_doc(rnd, mem, start, end, wrap_ok=False, annotate=False, allow_i=True, i
                 if rst and mem[p & 0xFFFF] == 0xCF:
                     ln = 2              # sna2skool -r (default RSTHandlerConfig 8:B): RST 8 owns the byte that follows it
                 if p + ln > end:
+                    if wrap_ok and end == 65536 and p < end:
+                        # Wrap=1: the last instruction may start below 65536 and run on at address 0
+                        p = end
+                        bounds.append(p)
                     break
                 p += ln
                 bounds.append(p)
